@@ -253,6 +253,22 @@ def proof_status(prop, requires, extra_files=None):
             res["failures"].append("theorem %s depends on axioms outside the allow-list: %s" % (name, bad))
         else:
             res["discharged"] += 1
+    # thorough tier: the independent checker re-checks the compiled library and everything it depends on
+    if os.environ.get("VERIF_TIER") == "thorough" or os.environ.get("GV_COQCHK"):
+        rc, o = sh("timeout 2400 coqchk -o -silent -Q . GV %s" % " ".join(requires), cwd=COQ, timeout=2500)
+        m = re.search(r"\* Axioms:(.*?)\n\s*\n\* Constants/Inductives relying on type-in-type:(.*?)\n\s*\n"
+                      r"\* Constants/Inductives relying on unsafe \(co\)fixpoints:(.*?)\n\s*\n"
+                      r"\* Inductives whose positivity is assumed:(.*?)\n", o + "\n\n", re.S)
+        res["coqchk"] = {"rc": rc, "summary": " ".join(o[-700:].split())}
+        if rc != 0 or not m:
+            res["failures"].append("coqchk did not accept %s: %s" % (requires, o[-1500:]))
+        else:
+            axs = [a.strip() for a in m.group(1).split("\n") if a.strip() and a.strip() != "<none>"]
+            bad = [a for a in axs if a.split(" ")[0] not in ALLOWED_AXIOMS and a.split(" ")[0].split(".")[-1] not in ALLOWED_AXIOMS]
+            unsafe = [x for g_ in (m.group(2), m.group(3), m.group(4)) for x in g_.split("\n") if x.strip() and x.strip() != "<none>"]
+            res["coqchk"]["axioms"] = axs
+            if bad or unsafe:
+                res["failures"].append("coqchk reports axioms outside the allow-list or unsafe constants: %s %s" % (bad, unsafe))
     # the files the property's theorems depend on (their dependency closure); the whole tree is scanned
     # in the thorough tier (files of other properties cannot weaken this property's theorems)
     scope = dep_closure(requires)
@@ -414,6 +430,10 @@ class Check:
             cov["checker_cmd"] = proof["checker_cmd"]
             cov["theorems"] = proof["names"]
             cov["axioms_per_theorem"] = proof["axioms"]
+            if "coqchk" in proof:
+                cov["coqchk"] = proof["coqchk"]
+            if "scanned_files" in proof:
+                cov["forbidden_token_scan_files"] = proof["scanned_files"]
         if extra_cov:
             cov.update(extra_cov)
         cov.setdefault("trusted_base", [])
